@@ -1293,6 +1293,11 @@ func (e *absEngine) call(fr *frame, st *nst, call *ssa.Call) {
 			st.z.add("", name, 0)
 		}
 	}
+	if e.apLens {
+		if _, isSlice := call.Type().Underlying().(*types.Slice); isSlice {
+			e.applyLenBounds(fr, st, call, 0, call)
+		}
+	}
 }
 
 func (e *absEngine) extract(fr *frame, st *nst, x *ssa.Extract) {
@@ -1324,6 +1329,9 @@ func (e *absEngine) extract(fr *frame, st *nst, x *ssa.Extract) {
 				st.assign(name, lvar(src), nil)
 			}
 			e.copyStruct(fr, st, "sv:"+fr.ctx+":"+x.Name(), "sv:"+fr.ctx+":"+call.Name()+"#"+fmt.Sprint(x.Index), x.Type())
+			if e.apLens {
+				e.applyLenBounds(fr, st, call, x.Index, x)
+			}
 			return
 		}
 	}
@@ -1338,6 +1346,47 @@ func (e *absEngine) extract(fr *frame, st *nst, x *ssa.Extract) {
 	}
 	if isIntType(x.Type()) || isBoolType(x.Type()) {
 		st.forget(name)
+	}
+	// a list built by a helper with one append per element of a list it ranges over is no longer than that list
+	if call, ok := x.Tuple.(*ssa.Call); ok && e.apLens {
+		e.applyLenBounds(fr, st, call, x.Index, x)
+	}
+}
+
+// applyLenBounds: len(result) <= len(the list the callee ranged over), stated on the caller's access-path symbol.
+func (e *absEngine) applyLenBounds(fr *frame, st *nst, call *ssa.Call, ri int, result ssa.Value) {
+	g := call.Call.StaticCallee()
+	if g == nil || !e.p.inModule(g) {
+		return
+	}
+	for _, lb := range lenBoundsOf(g) {
+		if lb.ri != ri || lb.pi < 0 || lb.pi >= len(call.Call.Args) {
+			continue
+		}
+		arg := call.Call.Args[lb.pi]
+		rl := e.lenLin(fr, st, result)
+		if lb.field == "" {
+			st.assumeLe(rl.minus(e.lenLin(fr, st, arg)))
+			continue
+		}
+		ap := "len:" + fr.ctx + ":ap:" + accessPath(arg) + "." + lb.field
+		if _, ok := st.z.lookup(ap); !ok {
+			st.z.add("", ap, 0)
+		}
+		if e.apField == nil {
+			e.apField = map[string]fieldRef{}
+		}
+		if _, has := e.apField[ap]; !has {
+			// the struct the field belongs to: the callee's parameter type
+			pt := g.Params[lb.pi].Type()
+			if p2, ok := pt.Underlying().(*types.Pointer); ok {
+				pt = p2.Elem()
+			}
+			if n := namedOf(pt); n != nil {
+				e.apField[ap] = fieldRef{n, lb.field}
+			}
+		}
+		st.assumeLe(rl.minus(lvar(ap)))
 	}
 }
 
